@@ -488,6 +488,18 @@ class tzfile(_tzinfo):
     def _read_tzfile(self, fileobj):
         out = _tzfile()
 
+        def read(size):
+            # A stream may deliver less than it was asked for (and a damaged
+            # file may end early): insist on exactly `size` bytes, so that the
+            # fields that follow are not read from the wrong position.
+            data = fileobj.read(size)
+            while len(data) < size:
+                chunk = fileobj.read(size - len(data))
+                if not chunk:
+                    raise ValueError("unexpected end of time zone data")
+                data += chunk
+            return data
+
         # From tzfile(5):
         #
         # The time zone information files used by tzset(3)
@@ -497,10 +509,10 @@ class tzfile(_tzinfo):
         # six four-byte values of type long, written in a
         # ``standard'' byte order (the high-order  byte
         # of the value is written first).
-        if fileobj.read(4).decode() != "TZif":
+        if read(4).decode() != "TZif":
             raise ValueError("magic not found")
 
-        fileobj.read(16)
+        read(16)
 
         (
             # The number of UTC/local indicators stored in the file.
@@ -525,7 +537,7 @@ class tzfile(_tzinfo):
             # abbreviation strings" stored in the file.
             charcnt,
 
-        ) = struct.unpack(">6l", fileobj.read(24))
+        ) = struct.unpack(">6l", read(24))
 
         # The above header is followed by tzh_timecnt four-byte
         # values  of  type long,  sorted  in ascending order.
@@ -536,7 +548,7 @@ class tzfile(_tzinfo):
 
         if timecnt:
             out.trans_list_utc = list(struct.unpack(">%dl" % timecnt,
-                                                    fileobj.read(timecnt*4)))
+                                                    read(timecnt * 4)))
         else:
             out.trans_list_utc = []
 
@@ -548,8 +560,7 @@ class tzfile(_tzinfo):
         # appears next in the file.
 
         if timecnt:
-            out.trans_idx = struct.unpack(">%dB" % timecnt,
-                                          fileobj.read(timecnt))
+            out.trans_idx = struct.unpack(">%dB" % timecnt, read(timecnt))
         else:
             out.trans_idx = []
 
@@ -567,9 +578,9 @@ class tzfile(_tzinfo):
         ttinfo = []
 
         for i in range(typecnt):
-            ttinfo.append(struct.unpack(">lbb", fileobj.read(6)))
+            ttinfo.append(struct.unpack(">lbb", read(6)))
 
-        abbr = fileobj.read(charcnt).decode()
+        abbr = read(charcnt).decode()
 
         # Then there are tzh_leapcnt pairs of four-byte
         # values, written in  standard byte  order;  the
@@ -593,8 +604,7 @@ class tzfile(_tzinfo):
         # time zone environment variables.
 
         if ttisstdcnt:
-            isstd = struct.unpack(">%db" % ttisstdcnt,
-                                  fileobj.read(ttisstdcnt))
+            isstd = struct.unpack(">%db" % ttisstdcnt, read(ttisstdcnt))
 
         # Finally, there are tzh_ttisgmtcnt UTC/local
         # indicators, each stored as a one-byte value;
@@ -605,8 +615,7 @@ class tzfile(_tzinfo):
         # ronment variables.
 
         if ttisgmtcnt:
-            isgmt = struct.unpack(">%db" % ttisgmtcnt,
-                                  fileobj.read(ttisgmtcnt))
+            isgmt = struct.unpack(">%db" % ttisgmtcnt, read(ttisgmtcnt))
 
         # Build ttinfo list
         out.ttinfo_list = []
